@@ -5,14 +5,16 @@ package main
 import (
 	"context"
 	"encoding/json"
+	"path/filepath"
+	"verif.local/mc/fsck"
 
-	"github.com/sharedcode/sop/cache"
-	"verif.local/mc/vhook"
 	"fmt"
+	"github.com/sharedcode/sop/cache"
 	"os"
 	"sort"
 	"strings"
 	"time"
+	"verif.local/mc/vhook"
 
 	"github.com/sharedcode/sop"
 	"verif.local/mc/ev"
@@ -45,10 +47,14 @@ type scenario struct {
 var epoch = time.Date(2026, 1, 2, 3, 4, 5, 0, time.UTC)
 
 type execEnv struct {
-	recs  []*txn.Record
-	final txn.Dump
-	cold  txn.Dump
+	recs     []*txn.Record
+	final    txn.Dump
+	cold     txn.Dump
 	followup *txn.Record
+	// C37 monitor: registry block images and install events
+	blocks   map[string][]byte
+	installs map[string]map[string]int // "<lid>@<version>" -> active physical id -> installing thread
+	c37      []string
 }
 
 func stallMap(sc *scenario) map[int]int {
@@ -99,6 +105,9 @@ func mkScenario(sc *scenario) *sched.Scenario {
 			sopenv.MaxTime = sc.MaxTime
 			env := &execEnv{recs: make([]*txn.Record, len(sc.Progs))}
 			x.Env = env
+			if monitorC37 {
+				installMonitor(x, env)
+			}
 			var specs []sched.ThreadSpec
 			if len(sc.Seq) > 0 {
 				idx := 0
@@ -176,6 +185,7 @@ type outcomeSet map[string]int
 
 func main() {
 	prop := os.Args[1]
+	monitorC37 = prop == "C37"
 	run := ev.New(prop, "exploration")
 	thorough := run.Thorough()
 	scs := scenariosFor(prop, thorough)
@@ -477,6 +487,13 @@ func checkExecution(run *ev.Run, prop string, sc *scenario, x *sched.Execution, 
 		return
 	}
 	_ = 0
+	if prop == "C37" {
+		for _, v := range env.c37 {
+			parts := strings.SplitN(v, "|", 2)
+			viol(parts[0], parts[1])
+		}
+		return
+	}
 	if prop == "C15" {
 		checkC15(viol, sc, x, env)
 		return
@@ -1082,5 +1099,81 @@ func checkC15(viol func(kind, detail string), sc *scenario, x *sched.Execution, 
 	// (a holder that stalls forever is a crashed transaction; what it leaves behind is C09's subject).
 	if f := env.followup; f != nil && !f.Committed && sc.stallAt == 0 {
 		viol("followup-blocked-after-ttl", fmt.Sprintf("after maxTime+1s a new transaction on the same keys failed: %s %s (stalled thread 0 at point %d)", f.EndErr, f.OpenErr, sc.stallAt))
+	}
+}
+
+var monitorC37 bool
+
+// installMonitor (C37): watches every registry block write. For each handle whose version is bumped by the
+// write it records (logical id, new version) -> active physical id and the installing thread; two different
+// successors installed for the same (id, version) mean two commits both installed their own successor of the
+// same base version. At the moment of an install the new active node blob must exist and parse.
+func installMonitor(x *sched.Execution, env *execEnv) {
+	env.blocks = map[string][]byte{}
+	env.installs = map[string]map[string]int{}
+	parse := func(blk []byte) map[fsck.UUID]fsck.Handle {
+		m := map[fsck.UUID]fsck.Handle{}
+		for i := 0; i+fsck.RecSz <= fsck.CRCOff && i+fsck.RecSz <= len(blk); i += fsck.RecSz {
+			h := fsck.DecodeRecord(blk[i : i+fsck.RecSz])
+			if !h.LogicalID.IsNil() {
+				m[h.LogicalID] = h
+			}
+		}
+		return m
+	}
+	sopenv.DIO.OnWrite = func(file string, off int64, block []byte) {
+		key := fmt.Sprintf("%s@%d", file, off)
+		old := env.blocks[key]
+		if old == nil {
+			// first write seen for this block in this execution: read the current image from disk
+			if f, err := os.Open(file); err == nil {
+				buf := make([]byte, len(block))
+				f.ReadAt(buf, off)
+				f.Close()
+				old = buf
+			}
+		}
+		before, after := parse(old), parse(block)
+		tid := x.CurrentID()
+		for lid, h := range after {
+			o, had := before[lid]
+			if had && o.Version == h.Version && o.Active() == h.Active() {
+				continue
+			}
+			if !had || h.Version > o.Version || o.Active() != h.Active() {
+				k := fmt.Sprintf("%s@v%d", lid, h.Version)
+				if env.installs[k] == nil {
+					env.installs[k] = map[string]int{}
+				}
+				act := h.Active().String()
+				if prev, dup := env.installs[k][act]; !dup {
+					for otherAct, otherTid := range env.installs[k] {
+						if otherAct != act {
+							env.c37 = append(env.c37, fmt.Sprintf("two-successors|node %s: thread %d installs version %d with active blob %s, but thread %d had already installed version %d with active blob %s (both are successors of version %d)", lid, tid, h.Version, act, otherTid, h.Version, otherAct, h.Version-1))
+						}
+					}
+					env.installs[k][act] = tid
+				} else {
+					_ = prev
+				}
+				if !had {
+					// a brand-new registry entry belongs to a node nothing references yet (its parent is installed
+					// by a later flip); it is judged when it becomes reachable, i.e. through the parents' flips
+					continue
+				}
+				// the node now (once this write lands) points at act: it must be fully written
+				table := filepath.Base(filepath.Dir(file))
+				bp := fsck.BlobPath(sopenv.Dir, table, h.Active())
+				if b, err := os.ReadFile(bp); err != nil {
+					env.c37 = append(env.c37, fmt.Sprintf("active-blob-missing|node %s version %d is being pointed at blob %s which does not exist: %v", lid, h.Version, act, err))
+				} else if !json.Valid(b) {
+					env.c37 = append(env.c37, fmt.Sprintf("active-blob-partial|node %s version %d is being pointed at blob %s which does not parse", lid, h.Version, act))
+				}
+			}
+			if had && h.Version < o.Version {
+				env.c37 = append(env.c37, fmt.Sprintf("version-regressed|node %s: thread %d writes version %d over version %d", lid, tid, h.Version, o.Version))
+			}
+		}
+		env.blocks[key] = append([]byte(nil), block...)
 	}
 }
